@@ -358,7 +358,9 @@ package derive
 //@ extern func sort.Strings(x []string) ()
 //@ assigns nothing
 //@ mutates-arg: x
-//@ ensures len(final(x)) == len(x)
+//@ ensures perm(final(x), x) && len(final(x)) == len(x) && ((final(x) == nil) <==> (x == nil))
+//@ ensures forall a int, b int :: 0 <= a && a < b && b < len(x) ==> !strlt(final(x)[b], final(x)[a])
+//@ ensures (forall k int :: 0 <= k && k < len(x) ==> exists l int :: 0 <= l && l < len(x) && final(x)[l] == x[k]) && (forall k int :: 0 <= k && k < len(x) ==> exists l int :: 0 <= l && l < len(x) && final(x)[k] == x[l])
 
 //@ func load(paths []string) (r *loader.Program, err error)
 //@ assigns nothing
@@ -381,3 +383,24 @@ package derive
 //@ loop 1: invariant !generated ==> synced
 //@ loop 1: invariant (!pg.autoname && !pg.dedup) ==> forall q string :: !isDerivedFile(q) ==> ((q in fs) <==> (q in old(fs))) && fs[q] == old(fs)[q]
 //@ loop 1: invariant forall q string :: !isDerivedFile(q) ==> ((q in fs) <==> (q in old(fs)))
+
+// sort.Strings / Ints / Float64s sort in place: a rearrangement without inversions.
+//@ extern func sort.Ints(x []int) ()
+//@ assigns nothing
+//@ mutates-arg: x
+//@ ensures perm(final(x), x) && len(final(x)) == len(x) && ((final(x) == nil) <==> (x == nil))
+//@ ensures forall a int, b int :: 0 <= a && a < b && b < len(x) ==> final(x)[a] <= final(x)[b]
+//@ ensures (forall k int :: 0 <= k && k < len(x) ==> exists l int :: 0 <= l && l < len(x) && final(x)[l] == x[k]) && (forall k int :: 0 <= k && k < len(x) ==> exists l int :: 0 <= l && l < len(x) && final(x)[k] == x[l])
+//@ extern func sort.Float64s(x []float64) ()
+//@ assigns nothing
+//@ mutates-arg: x
+//@ ensures perm(final(x), x) && len(final(x)) == len(x) && ((final(x) == nil) <==> (x == nil))
+//@ ensures forall a int, b int :: 0 <= a && a < b && b < len(x) ==> !fltlt(final(x)[b], final(x)[a])
+//@ ensures (forall k int :: 0 <= k && k < len(x) ==> exists l int :: 0 <= l && l < len(x) && final(x)[l] == x[k]) && (forall k int :: 0 <= k && k < len(x) ==> exists l int :: 0 <= l && l < len(x) && final(x)[k] == x[l])
+
+// ---------------------------------------------------------------------------
+// types.go
+// ---------------------------------------------------------------------------
+
+//@ func IsComparable(tt types.Type) (r bool)
+//@ abstract: pred flat
